@@ -19,12 +19,12 @@ BUDGET = {
     "thorough": {"runs": 150_000, "wall": 1500, "chunk": 100, "minimise": 150},
 }
 REQUIRED_PROBES = {"quick": ("short_write", "eagain", "size_above_buffer", "paced_reader", "peer_fin_mid_message",
-                             "concurrent_senders"),
+                             "concurrent_senders", "frame_at_packet_boundary"),
                    "thorough": ("short_write", "eagain", "size_above_buffer", "paced_reader", "reset_mid_message",
-                                "size_ge_1mib", "hard_error_during_send")}
+                                "size_ge_1mib", "hard_error_during_send", "frame_at_packet_boundary")}
 EVIDENCE = {
     "level": "exploration",
-    "rule": ("seeded message sizes (1 byte .. 3 MiB, around the socket buffer size), socket buffer sizes, reader "
+    "rule": ("seeded message sizes (1 byte .. 3 MiB, around the socket buffer size, frames of exactly k send packets +-1 byte), socket buffer sizes, reader "
              "pacings, optional RST or half-close, 1-3 sender threads on the protocol path; a run is non-trivial "
              "when at least one send() was short or hit EAGAIN; distinct = distinct (buffer size, size-class "
              "multiset, pacing, path, fault, scheduler)"),
@@ -85,6 +85,18 @@ def gen_plan(rng, tier, index):
         plan["fault_kind"] = rng.choice(["rst", "fin", "fin"])
     if buf <= 7 and plan["pacing"] in ("small", "stopgo"):
         plan["read_size"] = max(plan["read_size"], 100)
+    if plan["path"] == "protocol" and rng.random() < 0.4:
+        # boundary of the packetisation: the encoded frame (4 + 10 + body) is k packets long exactly, or one byte
+        # less / more
+        ps = plan["packet_size"]
+        k_, d_ = rng.choice([1, 1, 2, 3]), rng.choice([0, 0, -1, 1])
+        limit = min(buf * 1500, 3000 if buf <= 7 else 1 << 30)
+        for lb in (1, 2, 3):
+            n = k_ * ps + d_ - 14 - 5 - 1 - lb
+            if n >= 1 and (n < 256) == (lb == 1) and (n < 65536) == (lb <= 2) and n <= limit:
+                rng.choice(sends)[0] = n
+                plan["packet_boundary"] = [k_, d_]
+                break
     sched = dict(rng.choice(SCHEDS))
     sched["seed"] = rng.getrandbits(48)
     plan["sched"] = sched
@@ -210,6 +222,8 @@ def run(sim, plan):
     if path == "protocol":
         # the endpoint must be selected for nothing here (send path does not check); frames are HSMS messages
         pass
+    if plan.get("packet_boundary"):
+        sim.probe("frame_at_packet_boundary")
     if any(n > plan["buf"] for n, _ in plan["sends"]):
         sim.probe("size_above_buffer")
     if any(n >= (1 << 20) - 1 for n, _ in plan["sends"]):
